@@ -24,10 +24,12 @@ PID = "C02"
 EPS = 2.0 ** -52
 TAGS = ["lower", "unit_lower", "upper", "unit_upper", "spd", "semi", "indef", "cg"]
 EXACT_TAGS = TAGS[:5]                      # covered by the Q model
-MODEL_KINDS = ("exact", "lustruct", "xlsq") # xlsq: exact model comparison + normal equations exactly zero (rank-deficient semi-definite systems)
+MODEL_KINDS = ("exact", "lustruct", "xlsq", "cgq") # xlsq: exact model comparison + normal equations exactly zero (rank-deficient semi-definite systems)
 FMODEL_KINDS = ("fmodel", "flsq")          # case kinds the extracted model is run on OVER IEEE DOUBLES (driver line "F <case>"): square
                                            # roots are not rational there; integer results equal, values within F_TOL
 F_TOL = Fr(1, 10 ** 9)
+# cgq: conjugate gradient, model over Q (exact rationals) vs implementation (doubles): the step lengths are not dyadic, so the
+# comparison is at F_TOL; small well-conditioned integer systems, iterates exposed one by one through max_iterations
 LSQ_KINDS = ("lsq", "flsq", "xlsq")        # rank-deficient semi-definite systems: the monitor is the normal equations
 PS_BS = 20                                 # block_size of kernels/default/pstrf.hpp
 LU_TOL = Fr(1, 10 ** 12)
@@ -339,6 +341,36 @@ def gen_U_cases(rng, big):
             alpha = rng.choice([1.0, 0.5, 2.0, rng.uniform(0.1, 3)]); beta = rng.choice([1.0, rng.uniform(0.1, 2), 0.0, -1e-3 * min(a2[i][i] for i in range(n)), -100.0])
             cases.append(("fmodel", "U %s %d %s %s | %s | %s" % (ao, n, tok(alpha), tok(beta), fl(a2), fl([v]))))
     return cases
+# ---------------------------------------------------------------- conjugate gradient (op J: explicit epsilon and max_iterations)
+def gen_spd_int(rng, n, spread=3):
+    """small-integer symmetric positive definite matrix, well conditioned (G G^T + d I)"""
+    g = [[rint(rng, -2, 2) for _ in range(n)] for _ in range(n)]
+    a = mmul(g, tr(g)); d = rng.randint(max(2, n), spread * n + 4)
+    for i in range(n): a[i][i] += d
+    return a
+def J_line(ao, n, m, eps, maxit, a, b): return "J %s %d %d %s %d | %s | %s" % (ao, n, m, tok(eps), maxit, fl(a), fl(b))
+def gen_J_cases(rng, big):
+    cases = []; eps = Fr(1, 2 ** 30)
+    for ao in "rc":
+        # exactly representable runs: one step (A = 2^k I; right-hand side an eigenvector), zero right-hand side, x0 = b already solves
+        cases.append(("exact", J_line(ao, 3, 2, eps, 0, [[4, 0, 0], [0, 4, 0], [0, 0, 4]], [[4, 8], [-4, 0], [12, 4]])))
+        cases.append(("exact", J_line(ao, 2, 1, eps, 0, [[1, 0], [0, 1]], [[3], [5]])))
+        cases.append(("exact", J_line(ao, 2, 2, eps, 0, [[2, 1], [1, 2]], [[0, 0], [0, 0]])))
+        cases.append(("exact", J_line(ao, 2, 1, eps, 0, [[3, 1], [1, 3]], [[2], [2]])))          # eigenvector (1,1), eigenvalue 4: alpha = 1/4
+        cases.append(("exact", J_line(ao, 2, 1, eps, 3, [[2, 0], [0, 8]], [[2], [0]])))
+        for n in [rng.randint(1, 5) for _ in range(3 if not big else 10)]:
+            a = gen_spd_int(rng, n); m = rng.choice([1, 2, 3])
+            b = [[rint(rng, -4, 4) for _ in range(m)] for _ in range(n)]
+            if rng.random() < 0.3:          # start vector x0 = b better than 0: b nearly an eigenvector of eigenvalue ~1
+                a = [[Fr(int(i == j)) + (Fr(rng.randint(-1, 1), 8) if i != j else 0) for j in range(n)] for i in range(n)]; a = symm(a)
+            for k in list(range(1, n + 1)) + [0]:    # iterates x_1 .. x_n, then the run to convergence
+                cases.append(("cgq", J_line(ao, n, m, eps, k, a, b)))
+        for n in [rng.randint(2, 12) for _ in range(3 if not big else 8)]:
+            a = gen_float(rng, n, "spd", 10.0 ** rng.choice([0, 1, 2, 3])); m = rng.choice([1, 2])
+            b = [[rng.uniform(-1, 1) for _ in range(m)] for _ in range(n)]
+            for k in (0, rng.randint(1, n)):
+                cases.append(("fmodel", J_line(ao, n, m, 1e-10, k, a, b)))
+    return cases
 def gen_P_cases(rng, big):
     """streams aimed at the case splits of the pstrf proofs: rank 0, rank n, pivot ties, no swap needed / swap needed, zero trailing
     block, sizes crossing the panel width 20 (and 40)"""
@@ -614,6 +646,7 @@ def gen_cases(rng, tier):
     cases += gen_P_cases(rng, big)
     cases += gen_semi_cases(rng, big)
     cases += gen_U_cases(rng, big)
+    cases += gen_J_cases(rng, big)
     cases += gen_X_cases(rng, big)
     return cases
 def symm(a): return [[(a[i][j] + a[j][i]) / 2 for j in range(len(a))] for i in range(len(a))]
@@ -779,6 +812,22 @@ def monitor(kind, line, o):
             if dec: msgs.append("pivots increase at %d: %.17g < %.17g (max-diagonal rule)" % (dec[0], float(dg[dec[0]]), float(dg[dec[0] + 1])))
             if exact and rk != rank_of(a): msgs.append("pstrf returned rank %d, the matrix has rank %d" % (rk, rank_of(a)))
             return msgs
+    if cmd == "J":
+        n, m, eps, maxit = int(h[2]), int(h[3]), num(h[4]), int(h[5])
+        if og is None: return ["conjugate gradient reported an error (%s)" % o]
+        a = mat(n, n, [num(t) for t in g[1]]); b = mat(n, m, [num(t) for t in g[2]])
+        if len(og) != 4 or len(og[0]) != n or len(og[1]) != n or len(og[2]) != n * m or len(og[3]) != n * m: return ["malformed result"]
+        msgs = []
+        X, Y = mat(n, m, og[2]), mat(m, n, og[3])
+        if Y != tr(X): msgs.append("solve(trans(B),right) is not the transpose of solve(B,left) for a symmetric matrix")
+        if og[0] != og[1]: msgs.append("vector solve left and right differ")
+        if maxit == 0:
+            # returned through the stopping rule: the TRUE residual is below the coded threshold (up to rounding of the maintained residual)
+            for (xx, bb, nm) in (([[v] for v in og[0]], [[r[0]] for r in b], "solve(b)"), (X, b, "solve(B)")):
+                ax = mmul(a, xx); e = amax([[ax[i][j] - bb[i][j] for j in range(len(bb[0]))] for i in range(n)])
+                bound = eps + Fr(C_RES * max(n, 1) * EPS) * (ninf(a) * amax(xx) + amax(bb))
+                if e > bound: msgs.append("%s: residual %.3e after the stopping rule fired, threshold %.3e" % (nm, float(e), float(eps)))
+        return msgs
     if cmd == "Z":
         tag, n, m = h[1], int(h[3]), int(h[4])
         if og is None: return ["decomposition class reported an error (%s)" % o]
@@ -882,7 +931,7 @@ def main():
                 o = (b[0] if b else ""); msgs = ["implementation crashed/timed out (rc=%s) %s" % (rcb, o)]
             else:
                 o = b[0]; msgs = monitor(kind, line, o)
-            dis = (not msgs) and not a[0].endswith(" -") and ((kind in ("exact", "xlsq") and not same(a[0], o)) or (kind == "lustruct" and not close_lu(a[0], o)) or (kind in FMODEL_KINDS and not close_f(a[0], o)))
+            dis = (not msgs) and not a[0].endswith(" -") and ((kind in ("exact", "xlsq") and not same(a[0], o)) or (kind == "lustruct" and not close_lu(a[0], o)) or (kind in FMODEL_KINDS + ("cgq",) and not close_f(a[0], o)))
             if msgs or dis:
                 msg = msgs[0] if msgs else "model and implementation differ"
                 key = key_of(line, bname, msg)
